@@ -18,4 +18,5 @@ def jobs(tier, seed):
         J.append(product_job(P, f'reason-L{L}', G, sc('resp', L, prefix=b'HTTP/1.0 301 ', suffix=b'\r\n\n', api='parse', cap=1,
                              fixed={i: (A8 if i == hot else A7) for i in range(L)}), T(tier, 60, 300),
                              f'"HTTP/1.0 301 " + {L} symbolic reason bytes (7-bit but HTAB/SP/CR/LF; offset {hot}: any value but CR/LF) + CRLF LF', family='reason', mandatory=(L <= 8)))
+    J += sliding_families(P, G, tier, step=T(tier, 2, 1), pool=('resp-fold', 'resp-ignore'), max_off=30)
     return J
